@@ -5,7 +5,9 @@ EXTENDS Integers, Sequences, FiniteSets, TLC, Json
 CONSTANTS Fam, MaxLen
 VARIABLES dev, tgt
 
-R(seq, act, dir, s, d, v) == [seq |-> seq, action |-> act, dir |-> dir, src |-> s, dst |-> d, svc |-> v]
+\* opt: one further attribute of the rule ("" = none): logged, tag, disabled, destinations / sources excluded,
+\* ip_protocol IPV6, a context profile, another scope
+R(seq, act, dir, s, d, v) == [seq |-> seq, action |-> act, dir |-> dir, src |-> s, dst |-> d, svc |-> v, opt |-> ""]
 Addrs == {"10.1.1.10", "10.1.1.20", "10.1.2.30", "10.1.2.40"}
 GSets == {{"10.1.1.10"}, {"10.1.1.10", "10.1.1.20"}, {"10.1.1.10", "10.1.2.30", "10.1.2.40"}, {"10.1.1.20", "10.1.2.40"}}
 G(n) == "g:Netspoc-" \o n
@@ -66,6 +68,17 @@ N5 ==
                 ELSE [policies |-> [p \in {"Netspoc-v1"} |-> rule], groups |-> NoFn, services |-> [n \in {"Netspoc-svc"} |-> dv]]
        /\ tgt = [policies |-> [p \in {"Netspoc-v1"} |-> rule], groups |-> NoFn, services |-> [n \in {"Netspoc-svc"} |-> tv]]
 
+(* N6: rules that differ in ONE attribute only (logged, tag, disabled, excluded, ip_protocol, profile, scope, *)
+(* direction, sequence number): every attribute takes part in the comparison                                 *)
+Opts == {"", "log", "tag", "dis", "dx", "sx", "v6", "prof", "scope2"}
+VBase == R(20, "ALLOW", "OUT", "10.1.1.10", "10.1.2.30", "s:Netspoc-tcp_80")
+VBodies == {[VBase EXCEPT !.opt = o] : o \in Opts}
+           \cup {[VBase EXCEPT !.dir = "IN"], [VBase EXCEPT !.seq = 25], R(30, "DROP", "OUT", "ANY", "ANY", "ANY")}
+N6 ==
+  \E A \in SubsetsUpTo(VBodies, 2), B \in SubsetsUpTo(VBodies, 2) :
+    /\ dev = Cfg(A, NoFn, FALSE)
+    /\ tgt = Cfg(B, NoFn, FALSE)
+
 (* N4: the manager holds Netspoc-g0 and Netspoc-g0-1 (the result of an earlier approve that had to rename a *)
 (* clashing group); the target again has g0 / g1 with any contents                                            *)
 N4 ==
@@ -111,7 +124,7 @@ M2 ==
           /\ tgt = v4 @@ [parts |-> [craw |-> [policies |-> rawpol, groups |-> NoFn, services |-> NoFn],
                                      merged |-> [policies |-> mpol, groups |-> gm, services |-> v4.services]]]
 
-Init == CASE Fam = "N5" -> N5 [] Fam = "N4" -> N4 [] Fam = "M2" -> M2 [] Fam = "M1" -> M1 [] Fam = "N3" -> N3 [] Fam = "N1" -> N1 [] Fam = "N2" -> N2
+Init == CASE Fam = "N6" -> N6 [] Fam = "N5" -> N5 [] Fam = "N4" -> N4 [] Fam = "M2" -> M2 [] Fam = "M1" -> M1 [] Fam = "N3" -> N3 [] Fam = "N1" -> N1 [] Fam = "N2" -> N2
 Next == UNCHANGED <<dev, tgt>>
 HasTie == \E g, h \in DOMAIN dev.groups : g # h /\ dev.groups[g] = dev.groups[h]
 Out == PrintT(<<"VOUT", ToJson([fam |-> Fam, dev |-> dev, tgt |-> tgt, tie |-> HasTie])>>)
